@@ -129,7 +129,11 @@ def run_property(prop, tier, seed):
     names = list(P[tier] if tier in P else P["quick"])
     extra = P.get("seed_rotation", [])
     if tier == "quick" and extra:
-        names.append(extra[seed % len(extra)])
+        # VERIF_SEED only rotates which ONE additional (thorough-tier) harness joins the quick run;
+        # no verdict depends on randomness
+        pick = extra[seed % len(extra)]
+        if pick not in names:
+            names.append(pick)
     specs = {n: catalog.HARNESSES[n] for n in names}
     known = load_known()
     work = tempfile.mkdtemp(prefix="verif_%s_" % prop)
